@@ -139,6 +139,12 @@ func UserAgentHandle(str string) (map[string]interface{}, map[string]ast.DType) 
 }
 
 func DateFormatHandle(data interface{}, precision string, fmts string) (string, error) {
+	switch data.(type) {
+	case []any, map[string]any:
+		// not formatted into the message: a value that contains itself has no finite text
+		return "", fmt.Errorf("timestamp of type %T is not an integer", data)
+	}
+
 	v, err := conv.ToInt64E(data)
 	if err != nil {
 		return "", fmt.Errorf("timestamp %v is not an integer", data)
